@@ -347,14 +347,14 @@ func r054(c *Ctx, r *R) {
 		return guardedBy(b, func(g Guard) bool { return gCall(g, want, "api.Pin).IsRemotePin") })
 	}
 	n := 0
-	for _, ci := range findCalls(f, false, "stateless.Tracker).enqueue", "stateless.Tracker).unpin", "stateless.Tracker).pin", "optracker.OperationTracker).TrackNewOperation") {
+	for _, ci := range findInner(f, "stateless.Tracker).enqueue", "stateless.Tracker).unpin", "stateless.Tracker).pin", "optracker.OperationTracker).TrackNewOperation") {
 		n++
 		r.Check(notMeta(ci.Block()), "meta-ignored:"+shortName(ci), ci.Pos(), "not reached for meta pins", "meta pins reach "+shortName(ci)+": they must never be pinned on IPFS")
 	}
 	if n == 0 {
 		r.Und("calls", f.Pos(), "Track makes no tracker calls")
 	}
-	enq := findCalls(f, false, "stateless.Tracker).enqueue")
+	enq := findInner(f, "stateless.Tracker).enqueue")
 	if len(enq) != 1 {
 		r.Bad("enqueue", f.Pos(), "Track has %d enqueue calls (expected 1)", len(enq))
 	} else {
@@ -362,12 +362,12 @@ func r054(c *Ctx, r *R) {
 		r.Check(remote(enq[0].Block(), false) && isConst(a[2], opPin) && paramIndex(f, a[1]) == pinParam, "local-pin-queued", enq[0].Pos(),
 			"pins allocated here are queued as pin operations with the given pin object", "Track does not queue the given pin as a pin operation on the non-remote path")
 	}
-	un := findCalls(f, false, "stateless.Tracker).unpin")
+	un := findInner(f, "stateless.Tracker).unpin")
 	if len(un) != 1 {
 		r.Bad("remote-unpin", f.Pos(), "Track has %d unpin calls (expected 1): a pin that moved to other peers stays pinned here", len(un))
 	} else {
 		r.Check(remote(un[0].Block(), true), "remote-unpin", un[0].Pos(), "pins allocated elsewhere are unpinned locally", "the local unpin is not restricted to remote pins")
-		for _, ci := range findCalls(f, false, "optracker.OperationTracker).TrackNewOperation") {
+		for _, ci := range findInner(f, "optracker.OperationTracker).TrackNewOperation") {
 			a := callArgs(ci.Common())
 			r.Check(isConst(a[2], opRemote) && remote(ci.Block(), true), "remote-op-type", ci.Pos(), "the remote branch tracks an OperationRemote", "the remote branch tracks an operation of another type (its status would not be 'remote')")
 		}
